@@ -327,3 +327,13 @@ def run(ctx):
     import shared
     shared.share(ctx, "c17", lambda r, k: r == "R17.4", "R02.10", "C02/no-shared-state/")
 FLOORS["R02.10"] = 8
+
+# ---- R02.11 (shared with C15 R15.1 / R15.2): "moving bytes across the message / footer / assertion boundaries" is excluded only
+# if the pre-authentication encoding is injective: the exact PAE construction (count, then per piece its full 64-bit little-endian
+# length followed by its bytes) and exact writers. Every backend authenticates through this one function.
+_run_c02b = run
+def run(ctx):
+    _run_c02b(ctx)
+    import shared
+    shared.share(ctx, "c15", lambda r, k: r in ("R15.1", "R15.2"), "R02.11", "C02/pae-injective/")
+FLOORS["R02.11"] = 14
